@@ -23,10 +23,10 @@ namespace DD
 
 /-- every answer of the choice is a permutation of the list it was given -/
 structure Choice.Valid (c : Choice) : Prop where
-  names : ∀ l, (c.names l).Perm l
+  names : ∀ k l, (c.names k l).Perm l
   level : ∀ k j l, (c.level k j l).Perm l
 
-theorem Choice.default_valid : Choice.default.Valid := ⟨fun _ => .refl _, fun _ _ _ => .refl _⟩
+theorem Choice.default_valid : Choice.default.Valid := ⟨fun _ _ => .refl _, fun _ _ _ => .refl _⟩
 
 theorem isPerm_of_perm {a b : List Nat} (h : a.Perm b) : isPerm a b = true := by
   unfold isPerm
@@ -479,7 +479,7 @@ theorem applySiftingC_acc (ext : Nat → Nat) (c : Choice) (hc : c.Valid) (log :
   unfold applySiftingC applySifting
   refine AccC.bind_sn _ (collectGarbage_sn none) hg hgs ?_
   refine AccC.get (fun _ => rfl) ?_
-  refine AccC.sift (hc.names _) ?_
+  refine AccC.sift (hc.names log.length _) ?_
   refine AccC.ite _ (fun _ => AccC.throw _ other_ne_sched _ _) (fun _ => ?_)
   refine AccC.bind (siftVarsC_acc ext c hc _ _ mg hRg) ?_
   intro _ log1 m1 h1
